@@ -4,6 +4,9 @@
 //
 //	verifhook.BeforeLock(&x, write, site)
 //
+// and every statement `x.Unlock()` / `x.RUnlock()` is followed by
+// verifhook.BeforeLock(nil, false, site), a plain scheduling point,
+//
 // which gives the cooperative scheduler a scheduling point, with knowledge of
 // the lock about to be taken, in front of every mutex acquisition - including
 // acquisitions that a change to the code has added or moved.
@@ -80,6 +83,20 @@ func (r *rewriter) list(stmts []ast.Stmt) []ast.Stmt {
 			}
 		}
 		out = append(out, s)
+		// ... and a plain scheduling point right behind every statement
+		// `x.Unlock()` / `x.RUnlock()`: "at every point where a lock is released"
+		if es, ok := s.(*ast.ExprStmt); ok {
+			if call, ok := es.X.(*ast.CallExpr); ok && len(call.Args) == 0 {
+				if sel, ok := call.Fun.(*ast.SelectorExpr); ok && (sel.Sel.Name == "Unlock" || sel.Sel.Name == "RUnlock") {
+					line := r.fset.Position(s.Pos()).Line
+					out = append(out, &ast.ExprStmt{X: &ast.CallExpr{
+						Fun: &ast.SelectorExpr{X: ast.NewIdent("verifhook"), Sel: ast.NewIdent("BeforeLock")},
+						Args: []ast.Expr{ast.NewIdent("nil"), ast.NewIdent("false"),
+							&ast.BasicLit{Kind: token.INT, Value: fmt.Sprint(siteOf(r.file, line) + 1000000)}}}})
+					r.count++
+				}
+			}
+		}
 	}
 	return out
 }
